@@ -111,7 +111,38 @@ func (e *Env) get(name string) (val.V, bool) {
 	return val.V{}, false
 }
 
+// maxNodes bounds the values the reference keeps: its values are trees (a container referred to twice is two
+// copies), so a program that nests a container into itself in a loop doubles the tree every round. Past the bound
+// the program is outside what the reference can decide (the case is skipped as unspecified).
+const maxNodes = 1 << 18
+
+func nodes(v val.V, budget *int) {
+	*budget--
+	if *budget < 0 {
+		return
+	}
+	for i := range v.A {
+		nodes(v.A[i], budget)
+		if *budget < 0 {
+			return
+		}
+	}
+	for i := range v.M {
+		nodes(v.M[i].K, budget)
+		nodes(v.M[i].V, budget)
+		if *budget < 0 {
+			return
+		}
+	}
+}
+
 func (e *Env) set(name string, v val.V, create bool) {
+	if len(v.A) > 0 || len(v.M) > 0 {
+		budget := maxNodes
+		if nodes(v, &budget); budget < 0 {
+			unspecified("a value of more than %d nodes is bound to %s (the reference holds trees)", maxNodes, name)
+		}
+	}
 	if create {
 		e.store[name] = &slot{v: v}
 		return
